@@ -1,6 +1,7 @@
 package harness
 
 import (
+	"context"
 	"encoding/base64"
 	"encoding/binary"
 	"fmt"
@@ -67,7 +68,27 @@ func corruptFrame(rc *RunCtx, valid []byte, streamEntry bool) ([]byte, string) {
 		proto, _ := rc.Sample["protocol"].(string)
 		return giantRequest(proto, n), fmt.Sprintf("well-framed request for an unknown method with a %d-byte name", n)
 	}
-	switch tp.Intn("corrupt", 7) {
+	switch tp.Intn("corrupt", 9) {
+	case 8:
+		// the smallest well-formed unit: a frame of size zero (what a oneway
+		// gets over HTTP), alone or followed by stray bytes
+		rc.Fault("empty-frame")
+		out := make([]byte, 4+[]int{0, 0, 1, 5}[tp.Intn("corrupt", 4)])
+		return out, fmt.Sprintf("empty frame (size prefix 0) + %d stray zero bytes", len(out)-4)
+	case 7:
+		// well-framed, valid header block, hostile Thrift body
+		proto, _ := rc.Sample["protocol"].(string)
+		hs := int(binary.BigEndian.Uint32(b[5:9]))
+		mb := thrift.NewTMemoryBuffer()
+		mb.Write(b[9+hs:])
+		method, mtype, _, _ := protoFactory(proto).GetProtocol(mb).ReadMessageBegin(context.Background())
+		body, what := hostileBody(rc, proto, method, mtype)
+		out := append([]byte(nil), b[4:9+hs]...)
+		out = append(out, body...)
+		framed := make([]byte, 4, 4+len(out))
+		binary.BigEndian.PutUint32(framed, uint32(len(out)))
+		rc.Fault("hostile-thrift-body")
+		return append(framed, out...), what
 	case 0:
 		n := tp.Intn("corrupt", 6)
 		rc.Fault("raw-short-length")
@@ -111,6 +132,69 @@ func corruptFrame(rc *RunCtx, valid []byte, streamEntry bool) ([]byte, string) {
 		rc.Fault("extend")
 		return append(b, make([]byte, 1+tp.Intn("corrupt", 9))...), "extended"
 	}
+}
+
+// hostileBody builds a Thrift message whose envelope is valid but whose
+// contents promise more than they hold: containers and strings with sizes from
+// the dictionary, deep nesting, fields of the wrong type.
+func hostileBody(rc *RunCtx, proto, method string, mtype thrift.TMessageType) ([]byte, string) {
+	tp := rc.Tape
+	buf := thrift.NewTMemoryBuffer()
+	p := protoFactory(proto).GetProtocol(buf)
+	ctx := context.Background()
+	if mtype == thrift.CALL && tp.Intn("corrupt", 3) == 0 {
+		method = "nosuch"
+	}
+	fid := int16([]int{0, 1, 2, 99, -1, 32767}[tp.Intn("corrupt", 6)])
+	p.WriteMessageBegin(ctx, method, mtype, 0)
+	p.WriteStructBegin(ctx, "x")
+	big := int(int32(sizeDict[tp.Intn("corrupt", len(sizeDict))]))
+	var what string
+	switch tp.Intn("corrupt", 6) {
+	case 0:
+		p.WriteFieldBegin(ctx, "f", thrift.LIST, fid)
+		p.WriteListBegin(ctx, thrift.I64, big)
+		what = fmt.Sprintf("list<i64> announcing %d elements", big)
+	case 1:
+		p.WriteFieldBegin(ctx, "f", thrift.MAP, fid)
+		p.WriteMapBegin(ctx, thrift.STRING, thrift.STRUCT, big)
+		what = fmt.Sprintf("map<string,struct> announcing %d entries", big)
+	case 2:
+		p.WriteFieldBegin(ctx, "f", thrift.SET, fid)
+		p.WriteSetBegin(ctx, thrift.BOOL, big)
+		what = fmt.Sprintf("set<bool> announcing %d elements", big)
+	case 3:
+		p.WriteFieldBegin(ctx, "f", thrift.STRING, fid)
+		p.WriteI32(ctx, int32(big))
+		what = fmt.Sprintf("string announcing %d bytes", big)
+	case 4:
+		depth := []int{10, 63, 64, 65, 1000, 20000}[tp.Intn("corrupt", 6)]
+		for i := 0; i < depth; i++ {
+			p.WriteFieldBegin(ctx, "f", thrift.STRUCT, fid)
+			p.WriteStructBegin(ctx, "n")
+		}
+		if tp.Intn("corrupt", 2) == 0 {
+			for i := 0; i < depth; i++ {
+				p.WriteFieldStop(ctx)
+				p.WriteStructEnd(ctx)
+				p.WriteFieldEnd(ctx)
+			}
+			p.WriteFieldStop(ctx)
+			p.WriteStructEnd(ctx)
+			p.WriteMessageEnd(ctx)
+		}
+		what = fmt.Sprintf("structs nested %d deep", depth)
+	default:
+		// a list of lists of lists ... each announcing one element
+		depth := []int{10, 64, 65, 5000}[tp.Intn("corrupt", 4)]
+		p.WriteFieldBegin(ctx, "f", thrift.LIST, fid)
+		for i := 0; i < depth; i++ {
+			p.WriteListBegin(ctx, thrift.LIST, 1)
+		}
+		what = fmt.Sprintf("lists nested %d deep", depth)
+	}
+	p.Flush(ctx)
+	return append([]byte(nil), buf.Bytes()...), fmt.Sprintf("valid envelope for %q (field %d), body: %s", method, fid, what)
 }
 
 func corruptHarness(rc *RunCtx) {
